@@ -25,11 +25,13 @@ struct Counters
 	uint64_t opens_read = 0, opens_write = 0, open_failed = 0, write_calls = 0, read_calls = 0, stat_calls = 0;
 	uint64_t short_write = 0, short_read = 0, eintr_write = 0, eintr_read = 0, hard_write = 0;
 	uint64_t bytes_written = 0, bytes_read = 0;
+	uint64_t emfile = 0, max_open = 0;
 };
 
 bool is_sim_path(const char* p);
 void set_faults(const Faults& f);
 void clear_faults();
+void set_descriptor_limit(unsigned n);   // at most n simulated files open at once (0 = no limit); beyond that fopen fails with EMFILE
 Counters& counters();
 bool exists(const std::string& path);
 std::vector<std::string> list();
